@@ -187,3 +187,13 @@ Definition nontrivial (ms : list emod) (ps : list pval) : bool :=
 Definition judge_chain (c : list emod * list pval * list (list N * list N) * outcome (list ival)) : N :=
   let '(ms, ps, sur, r) := c in
   bits (agree (from_mapping ms ps) r) (spec_ok ms ps sur r) (in_domain ms sur) (nontrivial ms ps).
+
+(* suite pure: several observations of one chain (second application to the same value objects, the
+   value objects themselves afterwards, original_value, to_plain() and reload); every observation
+   is judged like a fresh application of its chain to its payloads *)
+Definition judge_pure
+  (c : list (list N * list N) * list (list emod * list pval * outcome (list ival))) : N :=
+  let '(sur, views) := c in
+  let bs := map (fun v => let '(ms, ps, r) := v in judge_chain (ms, ps, sur, r)) views in
+  bits (forallb (fun b => N.testbit b 0) bs) (forallb (fun b => N.testbit b 1) bs)
+       (forallb (fun b => N.testbit b 2) bs) (existsb (fun b => N.testbit b 3) bs).
